@@ -149,8 +149,10 @@ pub(crate) fn ntt_inv<F: NttFriendlyFieldElement>(
     inp: &[F],
     size: usize,
 ) -> Result<(), NttError> {
-    let size_inv = F::from(F::Integer::try_from(size).unwrap()).inv();
     ntt(outp, inp, size)?;
+    // Unwrap safety: ntt() has validated that size is at most 2^MAX_ROOTS, which fits in the
+    // integer type of every supported field.
+    let size_inv = F::from(F::Integer::try_from(size).unwrap()).inv();
     ntt_inv_finish(outp, size, size_inv);
     Ok(())
 }
